@@ -153,7 +153,7 @@ func TestC20Validation(t *testing.T) {
 	if ev.Thorough() {
 		L = 6
 	}
-	rep.Bound = fmt.Sprintf("all strings of length <=%d over %q; all 256 single bytes alone and embedded; 149/150/151-byte identifiers alone and inside lists; all lists of <=4 elements over a 10-element pool with and without metadata", L, string(sigma))
+	rep.Bound = fmt.Sprintf("all strings of length <=%d over %q; all 256 single bytes alone and embedded; every code point U+0080..U+FFFF (valid UTF-8) alone, doubled, embedded and in a list; 149/150/151-byte identifiers alone and inside lists; all lists of <=4 elements over a 10-element pool with and without metadata", L, string(sigma))
 	rep.Rule = "real TenantID / TenantIDs / ExtractWithMetadata vs an independent reading of the documented rules (split on '|', cut at first ':', documented character set, <=150 bytes, not '.'/'..'); agreement between single and multi resolution; metadata independence; distinct_nontrivial = accepted org ids"
 	deadline := ev.Deadline(10 * time.Minute)
 	total := 0
@@ -188,6 +188,17 @@ func TestC20Validation(t *testing.T) {
 		checkOrgID(rep, string([]byte{byte(c)}))
 		checkOrgID(rep, string([]byte{'a', byte(c), 'a'}))
 		checkOrgID(rep, string([]byte{'a', '|', byte(c)}))
+	}
+	// every code point of the basic multilingual plane above ASCII (as valid UTF-8), alone, doubled, embedded and in a list:
+	// the documented set is ASCII only, whatever the low bits of a code point look like
+	for r := rune(0x80); r <= 0xFFFF; r++ {
+		if r >= 0xD800 && r <= 0xDFFF {
+			continue
+		}
+		c := string(r)
+		for _, s := range []string{c, c + c, "a" + c, c + "|a", "a:k=" + c} {
+			checkOrgID(rep, s)
+		}
 	}
 	for _, n := range []int{149, 150, 151} {
 		long := strings.Repeat("a", n)
